@@ -873,10 +873,11 @@ impl KotoVm {
                     Ok((recover_register, ip)) => {
                         // The register stack may have been truncated while a call was being
                         // prepared, so ensure that the frame's registers are available again.
-                        if self.registers.len() < self.min_frame_registers {
-                            self.registers
-                                .resize(self.min_frame_registers, KValue::Null);
-                        }
+                        // Registers above the frame's own belong to calls that were interrupted
+                        // by the error (e.g. the arguments of an overridden operator that threw),
+                        // they get discarded so that they don't accumulate.
+                        self.registers
+                            .resize(self.min_frame_registers, KValue::Null);
 
                         let catch_value = match error.error {
                             ErrorKind::KotoError { thrown_value, .. } => thrown_value,
